@@ -239,4 +239,54 @@ theorem applyVol_onto {coord : Coord} {v : Vol} {op : SOp} {w : VStep} (hp : v.g
   rw [hprov]
   simp only [provOf, ej, hi, if_true]
 
+/-! ## a volume and its geometry twin are refused alike -/
+
+/-- a cropping operation on a volume is the geometry operation (array shape) followed by re-indexing the array -/
+theorem applyVol_cropping {coord : Coord} {v : Vol} {op : SOp} (hc : SOp.cropping op = true) :
+    op.applyVol coord v = (do let r ← op.applyG AxMap.alen coord v.geom; pure (v.reindex r)) := by
+  cases op <;> first | rfl | (simp [SOp.cropping] at hc)
+
+/-- a volume refuses a cropping operation exactly when its geometry-only twin does -/
+theorem cropping_accepted_alike {coord : Coord} {v : Vol} {op : SOp} (hp : v.geom.Pos) (hc : SOp.cropping op = true) :
+    (∃ w, op.applyVol coord v = .ok w) ↔ (∃ r, op.applyGeom coord v.geom = .ok r) := by
+  rw [applyVol_cropping hc]
+  constructor
+  · rintro ⟨w, h⟩
+    obtain ⟨r, hr, _⟩ := bind_ok.mp h
+    exact ⟨r, (applyG_sound AxMap.alen szOk_alen hp hr).2.2 AxMap.size szOk_size⟩
+  · rintro ⟨r, h⟩
+    have := (applyG_sound AxMap.size szOk_size hp h).2.2 AxMap.alen szOk_alen
+    exact ⟨v.reindex r, by rw [this]; rfl⟩
+
+theorem padArray_constant_ok (v : Vol) (f : I3 → I3) {o : PadOpts} (hm : o.mode = "CONSTANT" ∨ o.mode = "EDGE") :
+    ∃ x, padArray v f o = .ok x := by
+  unfold padArray
+  rcases hm with hm | hm
+  · have : PadMode.parse o.mode = some .constant := by rw [hm]; decide
+    rw [this, padPerChannel_eq this]
+    exact ⟨_, rfl⟩
+  · have : PadMode.parse o.mode = some .edge := by rw [hm]; decide
+    rw [this, padPerChannel_eq this]
+    exact ⟨_, rfl⟩
+
+/-- `pad` with CONSTANT or EDGE: the volume is refused exactly when the geometry-only twin is -/
+theorem pad_accepted_alike {coord : Coord} {v : Vol} {wd : PadWidth} {o : PadOpts} (hp : v.geom.Pos)
+    (hm : o.mode = "CONSTANT" ∨ o.mode = "EDGE") :
+    (∃ w, (SOp.pad wd o).applyVol coord v = .ok w) ↔ (∃ r, (SOp.pad wd o).applyGeom coord v.geom = .ok r) := by
+  have hcm : checkMode o = .ok () := by
+    unfold checkMode
+    rcases hm with hm | hm <;> rw [hm] <;> rfl
+  constructor
+  · rintro ⟨w, h⟩
+    simp only [SOp.applyVol] at h
+    obtain ⟨_, _, h⟩ := bind_ok.mp h
+    obtain ⟨r, hr, _⟩ := bind_ok.mp h
+    exact ⟨r, (padG_sound AxMap.alen szOk_alen hp hr).2 AxMap.size szOk_size⟩
+  · rintro ⟨r, h⟩
+    have hr : padG AxMap.alen v.geom wd = .ok r := (padG_sound AxMap.size szOk_size hp h).2 AxMap.alen szOk_alen
+    obtain ⟨x, hx⟩ := padArray_constant_ok v r.2 hm
+    refine ⟨({ v with geom := r.1, arr := x.1, isInt := x.2 }, provOf v.geom r.2), ?_⟩
+    simp only [SOp.applyVol, hcm, hr, bind, Except.bind, Vol.padStep, hx, pure, Except.pure]
+
+
 end HdVerif.VolLemmas
